@@ -347,12 +347,31 @@ class Fold:
                 self.ranges[idx] = (next(iter(los)), test[2])
                 self.norm[me] = ("item", idx)
         iters = {l for k, l in self.counter.values() if k == "iter"}
-        # nothing in the nest is written behind the back of the segment evaluation
+        # nothing in the nest is written behind the back of the segment evaluation: apart from the
+        # iterators' `&mut` for next(), only element writes `a[i] = v` to an integer array, which the
+        # segment evaluation tracks per element (wa/loopseg.py SegExprs)
+        self.elem_arrays = set()
         for l, loc, kind in loopseg.indirect_writes(b, self.loop):
+            st = b.stmts(loc[0])
+            if kind == "partial" and loc[1] < len(st) and self._elem_ty(l) is not None:
+                pr = st[loc[1]]["place"]["proj"]
+                if len(pr) == 1 and pr[0]["k"] == "index":
+                    self.elem_arrays.add(l)
+                    continue
             root = alias_of(b, l)[0]
             if root not in iters:
                 raise ShapeNotRecognised("get_evaluation: `%s` is written through a projection or a borrow at %s; the fold is not recognised" % (
                     b.lname(root), b.where(loc)))
+
+    def _elem_ty(self, l):
+        """Element type of a local integer array `[iN; K]`, else None."""
+        import re
+        m = re.match(r"^\[(\w+); \d+\]$", self.b.local_ty(l))
+        return m.group(1) if m and m.group(1) in INT_RANGES else None
+
+    def cname(self, c):
+        """Display name of a cell: a local, or an element of an array local."""
+        return self.b.lname(c) if isinstance(c, int) else "%s[%s]" % (self.b.lname(c[1]), c[2])
 
     # -- what survives an iteration -----------------------------------------------------------------
     def _state(self):
@@ -363,9 +382,9 @@ class Fold:
             for blocks, end, env, conds in segs:
                 for l, v in env.items():
                     assigned.setdefault(l, set()).add(kind)
-                    reads |= loopseg.undef_locals(v)
+                    reads |= loopseg.undef_cells(v)
                 for c in conds:
-                    reads |= loopseg.undef_locals(c[0])
+                    reads |= loopseg.undef_cells(c[0])
         # the part after the loop
         self.tail = []
         for blocks, dec in enum_paths(b, self.ex, start=self.exit):
@@ -374,29 +393,38 @@ class Fold:
             env, conds = eval_path(b, blocks)
             self.tail.append((env.get(0), conds))
             if env.get(0) is not None:
-                reads |= loopseg.undef_locals(env[0])
+                reads |= loopseg.undef_cells(env[0])
             for c in conds:
-                reads |= loopseg.undef_locals(c[0])
+                reads |= loopseg.undef_cells(c[0])
         rd = b.reaching()
         counters = {l for k, l in self.counter.values()}
         self.accs = []
-        for l in sorted(l for l in assigned if l in reads):
-            if l in counters or loopseg.undef(l) in self.norm:
+        for c in assigned:
+            # an array written element-wise is only understood element by element
+            if not isinstance(c, int) and (c[2] is None or c[1] in reads):
+                raise ShapeNotRecognised("get_evaluation: array `%s` is written at an index that is not fixed by the colour trace, or read as a whole" % b.lname(c[1]))
+        for l in sorted((c for c in assigned if c in reads), key=str):
+            if isinstance(l, int) and (l in counters or loopseg.undef(l) in self.norm):
                 continue       # a loop counter or a per-row function of it (checked in _counters)
-            if assigned[l] != {"B"} or b.local_ty(l) not in ACC_TYPES:
-                raise ShapeNotRecognised("get_evaluation: `%s` carries a value from one iteration to the next but is neither a loop counter nor an accumulator updated once per square" % b.lname(l))
+            ty = b.local_ty(l) if isinstance(l, int) else self._elem_ty(l[1])
+            if assigned[l] != {"B"} or ty not in ACC_TYPES:
+                raise ShapeNotRecognised("get_evaluation: `%s` carries a value from one iteration to the next but is neither a loop counter nor an accumulator updated once per square" % self.cname(l))
             self.accs.append(l)
         # an accumulator starts at 0 and is written nowhere but in the loop body; what the code after
         # the nest does with it (`mg = -mg`) is part of the tail, which is evaluated path by path
+        def zero(e):
+            return e == ("const", 0) or (e[0] == "repeat" and e[1] == ("const", 0)) or (e[0] == "agg" and e[1] == "array" and all(x == ("const", 0) for x in e[3]))
         for l in self.accs:
-            for loc, kind in rd.all_sites(l):
+            arr = not isinstance(l, int)
+            for loc, kind in rd.all_sites(l[1] if arr else l):
                 if loc[0] in self.loop:
                     continue
                 st = b.stmts(loc[0])
-                init0 = (loc[1] < len(st) and self.ex.rvalue(st[loc[1]]["rv"], loc) == ("const", 0) and b.node_dominates(loc[0], self.outer)
+                init0 = (loc[1] < len(st) and zero(self.ex.rvalue(st[loc[1]]["rv"], loc)) and b.node_dominates(loc[0], self.outer)
                          and not b.node_dominates(self.exit, loc[0]))
-                if not (kind == "whole" and (init0 or b.node_dominates(self.exit, loc[0]))):
-                    raise ShapeNotRecognised("accumulator `%s` not initialised to 0, or written outside the loop nest (%s)" % (b.lname(l), b.where(loc)))
+                # (the tail evaluation does not track element writes: an array accumulator is final after the nest)
+                if not (kind == "whole" and (init0 or (not arr and b.node_dominates(self.exit, loc[0])))):
+                    raise ShapeNotRecognised("accumulator `%s` not initialised to 0, or written outside the loop nest (%s)" % (self.cname(l), b.where(loc)))
         # and the fold is not bypassed: every normal return comes after the loop nest
         for r in b.return_blocks():
             if not b.node_dominates(self.outer, r):
@@ -474,9 +502,9 @@ class Fold:
                     continue
                 v = loopseg.subst_simplify(env[l], self.norm)
                 le = linear(v)
-                me = loopseg.undef(l)
+                me = loopseg.cell_undef(l)
                 if le is None or le[0].get(me) != 1:
-                    raise ShapeNotRecognised("accumulator `%s` updated by `%s` (not acc += e)" % (b.lname(l), show_expr(v, b)[:60]))
+                    raise ShapeNotRecognised("accumulator `%s` updated by `%s` (not acc += e)" % (self.cname(l), show_expr(v, b)[:60]))
                 terms = {t: k for t, k in le[0].items() if t != me}
                 if not terms and le[1] == 0:
                     continue
@@ -484,7 +512,7 @@ class Fold:
                     bad = loopseg.undef_locals(t)
                     if bad:
                         raise ShapeNotRecognised("accumulator addend of `%s` depends on %s, a value carried over from another square" % (
-                            b.lname(l), ", ".join("`%s`" % b.lname(x) for x in sorted(bad))))
+                            self.cname(l), ", ".join("`%s`" % b.lname(x) for x in sorted(bad))))
                 contrib[l] = (terms, le[1])
                 self.contrib_where.setdefault(l, b.where(self._def_site(blocks, l)))
             if full is not True and not contrib and not extra:
@@ -492,11 +520,12 @@ class Fold:
             if full is not True and contrib:
                 raise ShapeNotRecognised("get_evaluation: a contribution is made at %s without the square being tested to hold a piece" % b.where(b.term_loc(blocks[-1])))
             for c in extra:
-                bad = loopseg.undef_locals(c[0])
-                if bad & set(self.accs):
-                    l = sorted(bad & set(self.accs))[0]
+                bad = loopseg.undef_cells(c[0]) | loopseg.undef_locals(c[0])
+                acc_locals = set(self.accs) | {a[1] for a in self.accs if not isinstance(a, int)}
+                if bad & acc_locals:
+                    l = sorted(bad & acc_locals, key=str)[0]
                     raise ShapeNotRecognised("update of the fold at %s is guarded by `%s`, which reads a running total (`%s`): the fold is not order-independent" % (
-                        b.where(b.term_loc(blocks[-1])), show_expr(c[0], b)[:60], b.lname(l)))
+                        b.where(b.term_loc(blocks[-1])), show_expr(c[0], b)[:60], self.cname(l)))
                 if full is True:
                     raise ShapeNotRecognised("what a piece contributes depends on `%s`, not only on the square's colour and kind: the per-colour traces are not recognised" % show_expr(c[0], b)[:70])
             if not contrib:
@@ -540,13 +569,15 @@ class Fold:
         site = None
         for bb in blocks:
             for i, st in enumerate(b.stmts(bb)):
-                if st["k"] == "assign" and not st["place"]["proj"] and st["place"]["local"] == l:
+                if st["k"] == "assign" and st["place"]["local"] == (l if isinstance(l, int) else l[1]) and bool(st["place"]["proj"]) == (not isinstance(l, int)):
                     site = (bb, i)
         return site or b.term_loc(blocks[-1])
 
 
 def _table_values(f, fn):
-    """kind -> 8x8 matrix (or scalar) returned by a per-kind table/value function."""
+    """kind -> 8x8 matrix (or scalar) returned by a per-kind table/value function: every return path
+    is attributed to all the kinds its `match kind` decisions admit (one arm per kind, or-patterns
+    `Pawn | King => 0`, a `_` arm), and every kind must be covered by exactly one value."""
     b = f.body(fn)
     ex = Exprs(b)
     kinds = f.enum_variant_by_discr("board::PieceKind")
@@ -554,23 +585,62 @@ def _table_values(f, fn):
     for blocks, dec in enum_paths(b, ex):
         if b.term(blocks[-1])["k"] != "return":
             continue
-        kind = None
+        admitted = set(kinds.values())
         for d, (vals, oth) in dec.items():
-            if d[0] == "discr" and not oth and len(vals) == 1:
-                kind = kinds.get(vals[0])
+            d0 = strip_refs(d)
+            if d0[0] == "discr" and strip_refs(d0[1]) == ("arg", 1):
+                here = {kinds[v] for v in vals if v in kinds}
+                admitted &= (set(kinds.values()) - here) if oth else here
+            else:
+                raise ShapeNotRecognised("%s: branches on `%s`, not only on its kind" % (fn, show_expr(d, b)[:50]))
         env, conds = eval_path(b, blocks)
         r = strip_refs(env.get(0, ("opaque", "")))
-        if kind is None:
-            raise ShapeNotRecognised("%s: path without a kind" % fn)
         if r[0] == "const":
-            out[kind] = r[1]
+            val = r[1]
         elif r[0] == "agg" and r[1] == "array":
-            out[kind] = [[c[1] for c in row[3]] for row in r[3]]
+            val = [[c[1] for c in row[3]] for row in r[3]]
         else:
             raise ShapeNotRecognised("%s: unrecognised return %s" % (fn, show_expr(r, b)[:60]))
+        for k in admitted:
+            if k in out and out[k] != val:
+                raise ShapeNotRecognised("%s: two values for %s" % (fn, k))
+            out[k] = val
     if set(out) != set(kinds.values()):
         raise ShapeNotRecognised("%s: kinds covered %s" % (fn, sorted(out)))
     return out
+
+
+def _colour_fn(f, fn):
+    """{colour: colour} computed by a crate-local function PieceColor -> PieceColor (e.g. `opposite`),
+    decided from its body path by path like the kind tables; None if it is not such a total map."""
+    try:
+        b = f.body(fn)
+        if b.arg_count != 1 or b.local_ty(1) != "board::PieceColor" or b.local_ty(0) != "board::PieceColor" or b.loops():
+            return None
+        ex = Exprs(b)
+        colours = f.enum_variant_by_discr("board::PieceColor")
+        out = {}
+        for blocks, dec in enum_paths(b, ex):
+            if b.term(blocks[-1])["k"] != "return":
+                continue
+            admitted = set(colours.values())
+            for d, (vals, oth) in dec.items():
+                d0 = strip_refs(d)
+                if d0[0] != "discr" or strip_refs(d0[1]) != ("arg", 1):
+                    return None
+                here = {colours[v] for v in vals if v in colours}
+                admitted &= (set(colours.values()) - here) if oth else here
+            env, conds = eval_path(b, blocks)
+            r = strip_refs(env.get(0, ("opaque", "")))
+            if not (r[0] == "agg" and r[1] == "board::PieceColor" and not r[3]):
+                return None
+            for c in admitted:
+                if out.get(c, r[2]) != r[2]:
+                    return None
+                out[c] = r[2]
+        return out if set(out) == set(colours.values()) else None
+    except Exception:
+        return None
 
 
 def _call_of_kind(f, t):
@@ -667,20 +737,61 @@ def r14_2(ctx):
             phase[l] = {c: (x[1], x[2]) for c, x in cls.items()}
             kinds_used += [k for x in cls.values() for k in x[2]]
     for l, d in sorted(phase.items()):
-        ctx.ob("phase:%s:colour-independent" % b.lname(l), set(d) == {"White", "Black"} and d["White"] == d["Black"], fold.contrib_where.get(l, b.file),
+        ctx.ob("phase:%s:colour-independent" % fold.cname(l), set(d) == {"White", "Black"} and d["White"] == d["Black"], fold.contrib_where.get(l, b.file),
                "`%s` receives %s on the colour traces; it must be the same for both colours" % (
-                   b.lname(l), {c: "%s(kind)" % v[0].split("::")[-1] for c, v in sorted(d.items())}))
+                   fold.cname(l), {c: "%s(kind)" % v[0].split("::")[-1] for c, v in sorted(d.items())}))
     phase_accs = sorted(phase)
     score_accs = [l for l in fold.accs if l not in phase]
     # ---- tail: side arms and blend (loop-free part after the loop nest)
     bp = fold.bp
     is_side = lambda x: x[0] == "field" and x[2] == "to_move" and strip_refs(x[1]) == ("arg", bp)
-    acc_local = lambda t: int(t[1].split("_")[1]) if (t[0] == "opaque" and str(t[1]).startswith("undef _")) else None
+    def acc_local(t):
+        """The accumulator cell a term of the tail denotes (its value when the loop nest is left)."""
+        cs = loopseg.undef_cells(t)
+        return next(iter(cs)) if len(cs) == 1 and loopseg.cell_undef(next(iter(cs))) == t else None
     is_phase_total = lambda t: acc_local(t) in phase_accs
+    colour_names = set(fold.colours.values())
+    cfn = {}
+
+    def side_image(x):
+        """x is the side to move, or a total colour -> colour function of it (`to_move.opposite()`,
+        evaluated from that function's body): {side to move: value of x}, else None."""
+        x = strip_refs(x)
+        if is_side(x):
+            return {c: c for c in colour_names}
+        if x[0] == "call" and f.has_body(x[1]) and len(x[2]) == 1:
+            inner = side_image(x[2][0])
+            if inner is None:
+                return None
+            if x[1] not in cfn:
+                cfn[x[1]] = _colour_fn(f, x[1])
+            m = cfn[x[1]]
+            return {s_: m[v] for s_, v in inner.items()} if m else None
+        return None
+
+    def side_test(c):
+        """(subject, image) if branch decision c tests the side to move (directly or through a colour function)."""
+        d0 = strip_refs(c[0])
+        cands = [d0[1]] if d0[0] == "discr" else ([d0[2], d0[3]] if (d0[0] == "bin" and d0[1] in ("Eq", "Ne")) else [])
+        for x in cands:
+            x = strip_refs(x)
+            im = side_image(x)
+            if im is not None and loopseg.is_variant_test(c, lambda y: y == x):
+                return x, im
+        return None
+
     results = {}
     for res, conds in fold.tail:
-        sides = loopseg.variants_on_path(conds, is_side, fold.colours)
-        other = [c for c in conds if not loopseg.is_variant_test(c, is_side)]
+        sides = set(colour_names)
+        other = []
+        for c in conds:
+            stt = side_test(c)
+            if stt is None:
+                other.append(c)
+                continue
+            x, im = stt
+            allowed = loopseg.variants_on_path([c], lambda y: y == x, fold.colours)
+            sides = {s_ for s_ in sides if im[s_] in allowed}
         key = frozenset((c[0], cond_truth(c), tuple(c[1])) for c in other)
         for s in sorted(sides):
             results[(s, key)] = (res, other)
